@@ -194,6 +194,10 @@ def _axioms(ctx, name, zs, r):
         s = uf_apply(ctx, 'sin', SNum(x)).t
         c = uf_apply(ctx, 'cos', SNum(x)).t
         ax(z3.Implies(c != 0, r * c == s))
+        for k, r2 in list(ctx.apps.items()):
+            if k[0] == 'atan':
+                y2 = r2.arg(0)
+                ax(z3.Implies(z3.And(y2 == r, x > -zreal(PI) / 2, x < zreal(PI) / 2), r2 == x))
     elif name == 'atan':
         y, = zs
         ax(z3.And(r > -1.5708, r < 1.5708))
@@ -205,6 +209,10 @@ def _axioms(ctx, name, zs, r):
             if k[0] == 'atan' and not r2.eq(r):
                 y2 = r2.arg(0)
                 ax(z3.And(z3.Implies(y < y2, r < r2), z3.Implies(y2 < y, r2 < r), z3.Implies(y == y2, r == r2)))
+            if k[0] == 'tan' and not r2.eq(t):
+                # atan(tan x) = x on (-pi/2, pi/2)
+                x2 = r2.arg(0)
+                ax(z3.Implies(z3.And(y == r2, x2 > -zreal(PI) / 2, x2 < zreal(PI) / 2), r == x2))
     elif name == 'atan2':
         y, x = zs
         a = uf_apply(ctx, 'atan', SNum(y / x)).t
